@@ -38,12 +38,7 @@ def ray_to_surface_point(ctx, R, k):
     z = 2 * R / (1 + k + sl * sl)
     rho = sl * z
     P = (0.6 * rho, 0.8 * rho, z)
-    if ctx.tier == 'thorough':
-        u, v = ctx.real('u', lo=-0.4, hi=0.4), ctx.real('v', lo=-0.4, hi=0.4)
-        den = 1 + u * u + v * v
-        d = (2 * u / den, 2 * v / den, (1 - u * u - v * v) / den)
-    else:
-        d = tuple(rational(ctx, p_, 7) for p_ in (2, -3, 6))        # a skew unit vector with rational components
+    d = tuple(rational(ctx, p_, 7) for p_ in (2, -3, 6))        # a skew unit vector with rational components
     tau = ctx.real('tau', lo=0.01, hi=100.0)
     P0 = tuple(p - tau * c for p, c in zip(P, d))
     return P0, d, P, tau
@@ -56,29 +51,31 @@ def lens_numbers(ctx):
                 fy=ctx.real('fy', lo=0.1, hi=30.0), ra=ctx.real('ra', lo=0.1, hi=100.0))
 
 
-def conic_plane_lens(ctx, d, obj_t, s=1.0):
+def conic_plane_lens(ctx, d, obj_t, s=1.0, na=None):
     """conic + plane singlet with an aperture on the first surface, angular fields; every LENGTH multiplied by s"""
     from optiland.physical_apertures import RadialAperture
     o = build_optic(ctx, [dict(radius=d['R1'] * s, conic=d['k1'], thickness=d['t1'] * s, n=d['n1'], stop=True,
                                aperture=RadialAperture(r_max=d['ra'] * s, r_min=0.0)),
                           dict(radius=np.inf, thickness=d['t2'] * s)],
-                    obj_t=(np.inf if obj_t is None else obj_t * s), aperture=('EPD', d['epd'] * s), field_type='angle', fields=(0.0, d['fy']))
+                    obj_t=(np.inf if obj_t is None else obj_t * s), aperture=(('EPD', d['epd'] * s) if na is None else ('objectNA', na)),
+                    field_type='angle', fields=(0.0, d['fy']))
     return o
 
 
-@harness('C07', 'H1_scale_system', funcs=FUNCS, cases=lambda tier: [dict(obj='inf'), dict(obj='finite')],
+@harness('C07', 'H1_scale_system', funcs=FUNCS, cases=lambda tier: [dict(obj='inf'), dict(obj='finite'), dict(obj='finite', ap='objectNA')],
          bounds='conic + plane singlet (R, k, thicknesses, index, EPD, aperture radius, field angle symbolic), object at infinity or at a symbolic '
-                'finite distance, angular fields; scale factor s in [0.01, 100] symbolic',
+                'finite distance, aperture given as EPD or (finite object) as object-space NA, angular fields; scale factor s in [0.01, 100] symbolic',
          doc='Optic.scale_system(s) produces exactly the lens built with every length multiplied by s: vertex positions (the object too), radii, '
              'conic and indices unchanged, EPD, aperture radii; the paraxial focal length of the result is s times the original one')
-def h1_scale_system(ctx, obj):
+def h1_scale_system(ctx, obj, ap='EPD'):
     d = lens_numbers(ctx)
     s = ctx.real('s', lo=0.01, hi=100.0)
     t0 = ctx.real('t0', lo=1.0, hi=500.0) if obj == 'finite' else None
-    o = conic_plane_lens(ctx, d, t0)
+    na = ctx.real('na', lo=0.01, hi=0.5) if ap == 'objectNA' else None          # (a numerical aperture is not a length: it must not be scaled)
+    o = conic_plane_lens(ctx, d, t0, na=na)
     f_before = ctx.val(o.paraxial.f2())
     o.scale_system(s)
-    want = conic_plane_lens(ctx, d, t0, s)
+    want = conic_plane_lens(ctx, d, t0, s, na=na)
     a, b = snapshot(ctx, o), snapshot(ctx, want)
     ctx.oblige('same_keys', set(a) == set(b))
     for key in b:
@@ -115,7 +112,7 @@ def make_surface(ctx, kind, R, k, n1, n2, f=1.0):
 
 
 def step_inputs(ctx, kind):
-    if kind == 'plane' or ctx.tier == 'thorough':
+    if kind == 'plane':
         n1, n2 = ctx.real('n1', lo=1.0, hi=4.0), ctx.real('n2', lo=1.0, hi=4.0)
     else:
         n1, n2 = ctx.const(1.0), ctx.const(1.5)
